@@ -36,9 +36,10 @@ def spec_floordiv(l, r, q):
 
 def spec_mod(l, r, m):
     # m has the sign of the divisor, |m| < |r|, and l - m is a multiple of r
-    k = z3.Int("spec_mod_k")
+    # (divisibility is stated with the solver's own Euclidean remainder, which is independent of the
+    # engine's floor-division encoding and keeps the obligation quantifier-free)
     rng = z3.If(r > 0, z3.And(0 <= m, m < r), z3.And(r < m, m <= 0))
-    return z3.And(rng, z3.Exists([k], l - m == k * r))
+    return z3.And(rng, z3.Implies(r != 0, (l - m) % r == 0))
 
 
 def bitop(uf, boolop):
